@@ -52,9 +52,10 @@ Proof.
 Qed.
 
 Section WithFold.
-  Variable foldc : N -> N.
-  Hypothesis fold_slash : forall c, N.eqb (foldc c) ch_slash = N.eqb c ch_slash.
-  Hypothesis fold_hash : forall c, N.eqb (foldc c) ch_hash = N.eqb c ch_hash.
+  Variable foldc : N -> str.
+  Hypothesis fold_slash : foldc ch_slash = [ch_slash] /\ forall c, In ch_slash (foldc c) -> c = ch_slash.
+  Hypothesis fold_hash : foldc ch_hash = [ch_hash] /\ (forall c, foldc c = [ch_hash] -> c = ch_hash) /\
+                         forall c, foldc c <> [].
   Notation fold := (Schema.fold foldc).
 
   Variable S : list str.
@@ -63,7 +64,14 @@ Section WithFold.
   Hypothesis HT : Inv foldc S (long_form_tags T).
   Notation L := (long_form_tags T).
 
-  Let fold_app_slash := fold_app_slash foldc fold_slash.
+  Let F_app := fold_app foldc.
+  Let F_app_slash := fold_app_slash foldc fold_slash.
+  Let F_eq_hash := fold_eq_hash foldc fold_hash.
+  Let F_eq_app_slash := fold_eq_app_slash foldc fold_slash.
+  Let F_sp := sp_fold foldc fold_slash.
+  Let F_s_hash := fold_s_hash foldc fold_hash.
+  Let F_s_slash_hash := fold_s_slash_hash foldc fold_slash fold_hash.
+  Let F_last_comp := last_comp_fold foldc fold_slash.
   Let forms_disjoint := forms_disjoint foldc fold_slash fold_hash S wf.
 
   Lemma lookup_form n f p :
@@ -73,13 +81,6 @@ Section WithFold.
   Lemma lookup_inv k e :
     lookup k L = Some e -> exists n f, In n S /\ e = ent n /\ is_form f n /\ fold f = k.
   Proof. apply (proj1 HT). Qed.
-
-  Lemma fold_eq_slash_hash s : fold s = s_slash_hash -> s = s_slash_hash.
-  Proof.
-    intro H. change s_slash_hash with (ch_slash :: s_hash) in H.
-    apply (fold_eq_cons_slash foldc fold_slash) in H as (r & E & H). subst s.
-    apply (fold_eq_hash foldc fold_hash) in H. subst r. reflexivity.
-  Qed.
 
   (* a slash-prefix of a registered name that is not the name itself is a non-value registered name *)
   Lemma anc_ok n2 anc b : In n2 S -> n2 = anc ++ ch_slash :: b -> In anc S /\ is_value anc = false.
@@ -99,20 +100,23 @@ Section WithFold.
   (* every slash-prefix of a form is a form of the corresponding ancestor *)
   Lemma prefix_found n f q :
     In n S -> is_form f n -> In q (slash_prefixes f) ->
-    exists a, In a S /\ is_form q a /\ (q = f -> a = n).
+    exists a, In a S /\ is_form q a /\ (q = f -> a = n) /\ (q <> f -> is_value a = false).
   Proof.
     intros Hn Hf Hq. apply in_sp in Hq as [Hq|[rest Hq]].
-    - subst q. exists n. auto.
+    - subst q. exists n. repeat split; auto; try apply Hf. intro Z. contradiction.
     - destruct Hf as [Hs Hne]. apply ssuffix_iff in Hs as [Hs|[pre Hs]].
-      + subst f. destruct (anc_ok n q rest Hn Hq) as [A1 A2]. exists q. split; [exact A1|]. split.
+      + subst f. destruct (anc_ok n q rest Hn Hq) as [A1 A2]. exists q. split; [exact A1|]. split; [|split].
         * apply nonvalue_ssuffix_form; [exact A2 | left; reflexivity].
         * intro Z. exfalso. rewrite <- Z in Hq. apply (f_equal (@length N)) in Hq.
           rewrite app_length in Hq. cbn in Hq. lia.
+        * intros _. exact A2.
       + subst f. assert (E : n = (pre ++ ch_slash :: q) ++ ch_slash :: rest)
           by (rewrite Hs, <- app_assoc; reflexivity).
-        destruct (anc_ok n _ rest Hn E) as [A1 A2]. exists (pre ++ ch_slash :: q). split; [exact A1|]. split.
+        destruct (anc_ok n _ rest Hn E) as [A1 A2]. exists (pre ++ ch_slash :: q). split; [exact A1|].
+        split; [|split].
         * apply nonvalue_ssuffix_form; [exact A2 | apply ssuffix_app_slash].
         * intro Z. exfalso. apply (f_equal (@length N)) in Z. rewrite app_length in Z. cbn in Z. lia.
+        * intros _. exact A2.
   Qed.
 
   Lemma form_nonempty n f : In n S -> is_form f n -> f <> [].
@@ -124,8 +128,7 @@ Section WithFold.
     exists b, fold b = y /\ In (n ++ ch_slash :: b) S /\ e = ent (n ++ ch_slash :: b).
   Proof.
     intros Hn Hg Lk. apply lookup_inv in Lk as (n2 & f2 & H2 & Ee & [S2 N2] & E2).
-    apply (fold_eq_app foldc) in E2 as (a & b' & Ef & Ea & Eb).
-    apply (fold_eq_cons_slash foldc fold_slash) in Eb as (b & Eb' & Eb). subst b' f2.
+    apply F_eq_app_slash in E2 as (a & b & Ef & Ea & Eb). subst f2.
     assert (exists anc, n2 = anc ++ ch_slash :: b /\ ssuffix a anc) as (anc & En2 & Sa).
     { apply ssuffix_iff in S2 as [S2|[pre S2]].
       - exists a. split; [auto | left; reflexivity].
@@ -139,7 +142,7 @@ Section WithFold.
     In n S -> is_form f n -> In (n ++ ch_slash :: b) S ->
     lookup (fold f ++ ch_slash :: fold b) L = Some (ent (n ++ ch_slash :: b)).
   Proof.
-    intros Hn Hf Hb. rewrite <- fold_app_slash. apply (proj2 HT); [exact Hb|].
+    intros Hn Hf Hb. rewrite <- F_app_slash. apply (proj2 HT); [exact Hb|].
     split.
     - destruct Hf as [Hs _]. apply ssuffix_iff in Hs as [Hs|[pre Hs]].
       + subst f. left. reflexivity.
@@ -160,88 +163,24 @@ Section WithFold.
       rewrite (deeper_form_conv n g b Hn Hg Hb) in L1. discriminate.
   Qed.
 
-  (* nothing is registered below a value name *)
-  Lemma value_no_deeper n g y : In n S -> is_value n = true -> is_form g n ->
-    lookup (fold g ++ ch_slash :: y) L = None.
+  Lemma fold_eq_slash_hash s : fold s = s_slash_hash -> s = s_slash_hash.
   Proof.
-    intros Hn V Hg. destruct (lookup (fold g ++ ch_slash :: y) L) as [e|] eqn:L1; [|reflexivity].
-    destruct (deeper_form n g y e Hn Hg L1) as (b & _ & Hb & _).
-    destruct (anc_ok _ n b Hb eq_refl) as [_ A]. congruence.
+    intro H. change s_slash_hash with ([] ++ ch_slash :: s_hash) in H.
+    apply F_eq_app_slash in H as (s1 & s2 & E & H1 & H2).
+    apply (fold_eq_nil foldc fold_hash) in H1. apply F_eq_hash in H2. subst. reflexivity.
   Qed.
 
-  (* ---------------------------------------------------------------- the walk *)
-
-  Definition cur_after (ps : list str) (cur : option (entry * nat)) : option (entry * nat) :=
-    fold_left (fun c q => match lookup q L with Some e => Some (e, length q) | None => c end) ps cur.
-
-  Lemma walk_found_all ps1 ps2 cur :
-    (forall p, In p ps1 -> lookup p L <> None) ->
-    walk T (ps1 ++ ps2) cur = walk T ps2 (cur_after ps1 cur).
+  Lemma ends_slash_hash_name n : In n S -> ends_slash_hash n = is_value n.
   Proof.
-    revert cur. induction ps1 as [|q ps1 IH]; intros cur H; [reflexivity|].
-    cbn [app walk cur_after fold_left]. destruct (lookup q L) as [e|] eqn:E.
-    - apply IH. intros p Hp. apply H. right. exact Hp.
-    - exfalso. apply (H q); [left; reflexivity | exact E].
+    intro Hn. destruct (ends_slash_hash_value n) as [E|E]; [exact E|].
+    exfalso. exact (wf_nothash _ _ wf n Hn E).
   Qed.
 
-  Lemma cur_after_snoc l w cur e : lookup w L = Some e -> cur_after (l ++ [w]) cur = Some (e, length w).
-  Proof. intro H. unfold cur_after. rewrite fold_left_app. cbn. rewrite H. reflexivity. Qed.
+  Lemma ent_nonvalue n : is_value n = false -> e_long (ent n) = n /\ e_short (ent n) = last_comp n.
+  Proof. intro V. unfold ent. rewrite V. auto. Qed.
 
-  Lemma walk_inv ps : forall cur e idx m,
-    walk T ps cur = (Some (e, idx), m) -> ps <> [] -> lookup (last ps []) L = None ->
-    (cur = Some (e, idx) /\ exists q' ps2, ps = q' :: ps2 /\ lookup q' L = None) \/
-    (exists ps1 q q' ps2, ps = ps1 ++ q :: q' :: ps2 /\ lookup q L = Some e /\ idx = length q /\ lookup q' L = None).
-  Proof.
-    induction ps as [|q0 rest IH]; intros cur e idx m W Hne Hl; [contradiction|].
-    cbn [walk] in W. destruct (lookup q0 L) as [e0|] eqn:E0.
-    - destruct rest as [|q1 rest'].
-      + cbn in Hl. congruence.
-      + destruct (IH _ _ _ _ W) as [[C (q' & ps2 & Eq & Lq)]|(ps1 & q & q' & ps2 & Eq & Lq & Ei & Lq')].
-        * discriminate.
-        * exact Hl.
-        * inversion C; subst. inversion Eq; subst. right. exists [], q0, q', ps2. auto.
-        * right. exists (q0 :: ps1), q, q', ps2. rewrite Eq. auto.
-    - inversion W; subst. left. split; [reflexivity|]. exists q0, rest. auto.
-  Qed.
-
-  (* result of identification when the walk stops right after a form of n *)
-  Definition post (n r : str) : found :=
-    match takes_value_child foldc T (ent n) with
-    | Some v => Found v (ch_slash :: r)
-    | None =>
-        if forallb (fun name => match lookup name L with Some _ => false | None => true end)
-                   (split_slash (fold r))
-        then Found (ent n) (ch_slash :: r) else NotFound InvalidParentNode
-    end.
-
-  Lemma resolve_ext n g g' r ns :
-    In n S -> is_form g n -> fold g' = fold g ->
-    lookup (fold g ++ ch_slash :: fold r) L = None ->
-    lookup (fold g ++ ch_slash :: hd [] (slash_prefixes (fold r))) L = None ->
-    find_tag_entry_ foldc T (ns ++ g' ++ ch_slash :: r) ns = post n r.
-  Proof.
-    intros Hn Hg Eg L1 L2. unfold find_tag_entry_. rewrite skipn_app_exact, fold_app_slash, Eg, L1.
-    assert (W : walk T (slash_prefixes (fold g ++ ch_slash :: fold r)) None
-                = (Some (ent n, length (fold g)), true)).
-    { rewrite sp_app_slash, walk_found_all.
-      - destruct (sp_snoc (fold g)) as [l El]. rewrite El.
-        rewrite (cur_after_snoc l (fold g) None (ent n)) by (apply (lookup_form n g g Hn Hg eq_refl)).
-        destruct (slash_prefixes (fold r)) as [|x1 xs] eqn:Ex; [exfalso; exact (sp_nonempty _ Ex)|].
-        cbn [map walk hd] in *. rewrite L2. reflexivity.
-      - intros p Hp. rewrite (sp_fold foldc fold_slash) in Hp. apply in_map_iff in Hp as (q0 & Eq & Hq0).
-        destruct (prefix_found n g q0 Hn Hg Hq0) as (a & Ha & Fa & _).
-        rewrite <- Eq, (lookup_form a q0 q0 Ha Fa eq_refl). discriminate. }
-    unfold find_tag_subfunction. rewrite W. unfold post, validate_remaining_terms.
-    replace (skipn (length (fold g) + 1) (fold g ++ ch_slash :: fold r)) with (fold r).
-    2:{ change (fold g ++ ch_slash :: fold r) with (fold g ++ [ch_slash] ++ fold r).
-        rewrite app_assoc. symmetry. apply skipn_app_len. rewrite app_length. reflexivity. }
-    assert (Hlen : length (fold g) = length g').
-    { rewrite <- Eg. apply fold_length. }
-    destruct (takes_value_child foldc T (ent n)) as [v|] eqn:V; cbn [negb andb].
-    - rewrite Hlen, skipn_app_exact, V. reflexivity.
-    - destruct (forallb _ (split_slash (fold r))); cbn [negb]; [|reflexivity].
-      rewrite Hlen, skipn_app_exact, V. reflexivity.
-  Qed.
+  Lemma ent_value m : e_long (ent (m ++ s_slash_hash)) = m /\ e_short (ent (m ++ s_slash_hash)) = last_comp m.
+  Proof. unfold ent. rewrite value_of_app. cbn [e_long e_short]. rewrite drop_last2_app. auto. Qed.
 
   (* the value child of a non-value registered name n, when present, is the entry of n/# *)
   Lemma value_child_shape n v :
@@ -250,18 +189,12 @@ Section WithFold.
   Proof.
     intros Hn V H. unfold takes_value_child, get_entry in H. rewrite ent_name in H.
     change (n ++ s_slash_hash) with (n ++ ch_slash :: s_hash) in H.
-    rewrite fold_app_slash in H.
+    rewrite F_app_slash in H.
     destruct (deeper_form n n (fold s_hash) v Hn (self_form n (wf_nothash _ _ wf n Hn)) H) as (b & Eb & Hb & Ev).
-    rewrite (fold_s_hash foldc fold_hash) in Eb. apply (fold_eq_hash foldc fold_hash) in Eb. subst b v.
+    rewrite F_s_hash in Eb. apply F_eq_hash in Eb. subst b v.
     change (n ++ ch_slash :: s_hash) with (n ++ s_slash_hash).
     split; [reflexivity|]. unfold ent. rewrite value_of_app. cbn [e_long e_short]. rewrite drop_last2_app. auto.
   Qed.
-
-  Lemma ent_nonvalue n : is_value n = false -> e_long (ent n) = n /\ e_short (ent n) = last_comp n.
-  Proof. intro V. unfold ent. rewrite V. auto. Qed.
-
-  Lemma ent_value m : e_long (ent (m ++ s_slash_hash)) = m /\ e_short (ent (m ++ s_slash_hash)) = last_comp m.
-  Proof. unfold ent. rewrite value_of_app. cbn [e_long e_short]. rewrite drop_last2_app. auto. Qed.
 
   (* ---------------------------------------------------------------- direct hits *)
 
@@ -275,174 +208,295 @@ Section WithFold.
       apply ends_slash_hash_inv in E as [m E].
       assert (V : is_value n = true).
       { apply is_value_true. rewrite <- (last_comp_of_ssuffix _ _ Hs).
-        apply (fold_eq_hash foldc fold_hash). rewrite <- (last_comp_fold foldc fold_slash), E.
+        apply F_eq_hash. rewrite <- F_last_comp, E.
         apply hash_ssuffix_last. apply ssuffix_app_slash. }
       rewrite V. reflexivity.
     - destruct (is_value n) eqn:V; [|reflexivity]. exfalso.
       destruct (wf_value foldc S wf n Hn V) as (m & En & _). subst n.
       apply ssuffix_value in Hs as [Hs|(g & Eg & _)]; [contradiction|]. subst f.
-      rewrite (fold_app foldc), (fold_s_slash_hash foldc fold_slash fold_hash), ends_slash_hash_app in E.
+      rewrite F_app, F_s_slash_hash, ends_slash_hash_app in E.
       discriminate.
   Qed.
 
-  Lemma suffix_resolves_ n f p ns :
-    In n S -> is_form f n -> fold p = fold f ->
-    find_tag_entry_ foldc T (ns ++ p) ns = Found (ent n) (if is_value n then s_slash_hash else []).
-  Proof.
-    intros Hn Hf E. unfold find_tag_entry_. cbv zeta. rewrite skipn_app_exact, (lookup_form n f p Hn Hf E), E.
-    f_equal. apply (direct_ext n f Hn Hf).
-  Qed.
+  Section WithFixes.
+    Variable fx : fixes.
 
-  (* ---------------------------------------------------------------- re-identifying the canonical forms *)
+    Lemma suffix_resolves_ n f p ns :
+      In n S -> is_form f n -> fold p = fold f ->
+      find_tag_entry_ foldc fx T (ns ++ p) ns = Found (ent n) (if is_value n then s_slash_hash else []).
+    Proof.
+      intros Hn Hf E. unfold find_tag_entry_. cbv zeta. rewrite skipn_app_exact, (lookup_form n f p Hn Hf E), E.
+      f_equal. apply (direct_ext n f Hn Hf).
+    Qed.
 
-  Lemma colon_free_ssuffix n a : In n S -> ssuffix a n -> ~ In ch_colon a.
-  Proof.
-    intros Hn Hs Hin. destruct (name_ok_parts n (wf_names _ _ wf n Hn)) as (_ & _ & Hc). apply Hc.
-    apply ssuffix_iff in Hs as [Hs|[pre Hs]]; subst; [exact Hin|].
-    apply in_or_app. right. right. exact Hin.
-  Qed.
+    (* ---------------------------------------------------------------- the walk *)
 
-  Lemma ssuffix_app_r g m b : ssuffix g m -> ssuffix (g ++ ch_slash :: b) (m ++ ch_slash :: b).
-  Proof.
-    intro H. apply ssuffix_iff in H as [H|[pre H]]; subst; [left; reflexivity|].
-    rewrite <- app_assoc. apply ssuffix_app_slash.
-  Qed.
+    Notation wentry := (walk_entry fx T).
 
-  Lemma reresolve clean ns e ext :
-    ~ has_hash_mid clean ->
-    find_tag_entry_ foldc T (ns ++ clean) ns = Found e ext ->
-    (ext = [] \/ exists r, ext = ch_slash :: r) /\ ~ In ch_colon (e_short e) /\ ~ In ch_colon (e_long e) /\
-    find_tag_entry_ foldc T (ns ++ e_short e ++ ext) ns = Found e ext /\
-    find_tag_entry_ foldc T (ns ++ e_long e ++ ext) ns = Found e ext.
-  Proof.
-    intros NH H0. pose proof H0 as H. unfold find_tag_entry_ in H. cbv zeta in H. rewrite skipn_app_exact in H.
-    destruct (lookup (fold clean) L) as [e0|] eqn:D.
-    - (* direct hit *)
-      destruct (lookup_inv _ _ D) as (n & f & Hn & Ee & Hf & Ef). subst e0.
-      assert (Hx : ext = if is_value n then s_slash_hash else []).
-      { rewrite <- Ef in H. inversion H as [[H1 H2]]. apply (direct_ext n f Hn Hf). }
-      assert (He : e = ent n) by (inversion H; reflexivity).
-      subst e. clear H.
-      destruct (is_value n) eqn:V.
-      + destruct (wf_value foldc S wf n Hn V) as (m & En & Hm & Vm). subst n ext.
-        destruct (ent_value m) as [EL ES]. rewrite EL, ES.
-        assert (F1 : is_form (last_comp m ++ s_slash_hash) (m ++ s_slash_hash)).
-        { split; [apply (ssuffix_app_r _ _ s_hash), last_comp_ssuffix|].
-          intro Z. apply (f_equal (@length N)) in Z. rewrite app_length in Z. cbn in Z. lia. }
-        assert (F2 : is_form (m ++ s_slash_hash) (m ++ s_slash_hash)) by (apply self_form, (wf_nothash _ _ wf _ Hn)).
-        split; [right; exists s_hash; reflexivity|].
-        split; [apply (colon_free_ssuffix m _ Hm), last_comp_ssuffix|].
-        split; [apply (colon_free_ssuffix m _ Hm); left; reflexivity|].
-        split.
-        * rewrite (suffix_resolves_ _ _ _ ns Hn F1 eq_refl), V. reflexivity.
-        * rewrite (suffix_resolves_ _ _ _ ns Hn F2 eq_refl), V. reflexivity.
-      + subst ext. destruct (ent_nonvalue n V) as [EL ES]. rewrite EL, ES, !app_nil_r.
-        split; [left; reflexivity|].
+    Lemma wentry_none k : lookup k L = None -> wentry k = None.
+    Proof. intro H. unfold walk_entry. rewrite H. reflexivity. Qed.
+
+    Lemma wentry_congr k1 k2 : lookup k1 L = lookup k2 L -> wentry k1 = wentry k2.
+    Proof. intro H. unfold walk_entry. rewrite H. reflexivity. Qed.
+
+    Lemma wentry_some_inv k e : wentry k = Some e ->
+      lookup k L = Some e /\ (fix_hash fx = true -> ends_slash_hash (e_name e) = false).
+    Proof.
+      unfold walk_entry. destruct (lookup k L) as [e0|]; [|discriminate].
+      destruct (fix_hash fx && ends_slash_hash (e_name e0))%bool eqn:B; [discriminate|].
+      intro H. inversion H; subst. split; [reflexivity|]. intro Hx. rewrite Hx in B. exact B.
+    Qed.
+
+    Lemma wentry_nonvalue k a :
+      In a S -> (fix_hash fx = true -> is_value a = false) -> lookup k L = Some (ent a) ->
+      wentry k = Some (ent a).
+    Proof.
+      intros Ha V H. unfold walk_entry. rewrite H, ent_name, (ends_slash_hash_name a Ha).
+      destruct (fix_hash fx); [rewrite (V eq_refl)|]; reflexivity.
+    Qed.
+
+    Definition cur_after (ps : list (str * nat)) (cur : option (entry * nat)) : option (entry * nat) :=
+      fold_left (fun c p => match wentry (fst p) with Some e => Some (e, snd p) | None => c end) ps cur.
+
+    Lemma walk_found_all ps1 ps2 cur :
+      (forall p, In p ps1 -> wentry (fst p) <> None) ->
+      walk fx T (ps1 ++ ps2) cur = walk fx T ps2 (cur_after ps1 cur).
+    Proof.
+      revert cur. induction ps1 as [|[k i] ps1 IH]; intros cur H; [reflexivity|].
+      cbn [app walk cur_after fold_left fst snd]. destruct (wentry k) as [e|] eqn:E.
+      - apply IH. intros p Hp. apply H. right. exact Hp.
+      - exfalso. apply (H (k, i)); [left; reflexivity | exact E].
+    Qed.
+
+    Lemma cur_after_snoc l k i cur e : wentry k = Some e -> cur_after (l ++ [(k, i)]) cur = Some (e, i).
+    Proof. intro H. unfold cur_after. rewrite fold_left_app. cbn. rewrite H. reflexivity. Qed.
+
+    Lemma walk_inv ps : forall cur e idx m,
+      walk fx T ps cur = (Some (e, idx), m) -> ps <> [] -> wentry (fst (last ps ([], 0))) = None ->
+      (cur = Some (e, idx) /\ exists p' ps2, ps = p' :: ps2 /\ wentry (fst p') = None) \/
+      (exists ps1 p p' ps2, ps = ps1 ++ p :: p' :: ps2 /\ wentry (fst p) = Some e /\ idx = snd p /\
+                            wentry (fst p') = None).
+    Proof.
+      induction ps as [|[k0 i0] rest IH]; intros cur e idx m W Hne Hl; [contradiction|].
+      cbn [walk] in W. destruct (wentry k0) as [e0|] eqn:E0.
+      - destruct rest as [|q1 rest'].
+        + cbn in Hl. congruence.
+        + destruct (IH _ _ _ _ W) as [[C (q' & ps2 & Eq & Lq)]|(ps1 & q & q' & ps2 & Eq & Lq & Ei & Lq')].
+          * discriminate.
+          * exact Hl.
+          * inversion C; subst. inversion Eq; subst. right. exists [], (k0, idx), q', ps2. auto.
+          * right. exists ((k0, i0) :: ps1), q, q', ps2. rewrite Eq. auto.
+      - inversion W; subst. left. split; [reflexivity|]. exists (k0, i0), rest. auto.
+    Qed.
+
+    Hypothesis FI : fix_index fx = true.
+
+    (* result of identification when the walk stops right after a form of n *)
+    Definition post (n r : str) : found :=
+      match takes_value_child foldc T (ent n) with
+      | Some v => Found v (ch_slash :: r)
+      | None =>
+          if ext_terms_free foldc T r then Found (ent n) (ch_slash :: r) else NotFound InvalidParentNode
+      end.
+
+    Lemma resolve_ext n g g' r ns :
+      In n S -> is_form g n -> (fix_hash fx = true -> is_value n = false) -> fold g' = fold g ->
+      lookup (fold g ++ ch_slash :: fold r) L = None ->
+      wentry (fold g ++ ch_slash :: fold (hd [] (slash_prefixes r))) = None ->
+      find_tag_entry_ foldc fx T (ns ++ g' ++ ch_slash :: r) ns = post n r.
+    Proof.
+      intros Hn Hg Vn Eg L1 L2. unfold find_tag_entry_. rewrite skipn_app_exact, F_app_slash, Eg, L1.
+      set (f := fun q : str => (fold q, length q)).
+      assert (W : walk fx T (walk_keys foldc fx (g' ++ ch_slash :: r)) None = (Some (ent n, length g'), true)).
+      { unfold walk_keys. rewrite FI. fold f. rewrite sp_app_slash, map_app, walk_found_all.
+        - destruct (sp_snoc g') as [l El]. rewrite El, map_app. cbn [map]. change (f g') with (fold g', length g').
+          rewrite (cur_after_snoc (map f l) (fold g') (length g') None (ent n)).
+          2:{ apply (wentry_nonvalue _ n Hn Vn). apply (lookup_form n g g' Hn Hg Eg). }
+          destruct (slash_prefixes r) as [|x1 xs] eqn:Ex; [exfalso; exact (sp_nonempty _ Ex)|].
+          cbn [map walk hd] in *. change (f (g' ++ ch_slash :: x1)) with (fold (g' ++ ch_slash :: x1), length (g' ++ ch_slash :: x1)).
+          rewrite F_app_slash, Eg, L2. reflexivity.
+        - intros p Hp. apply in_map_iff in Hp as (q' & Ep & Hq'). subst p. unfold f. cbn [fst].
+          assert (Hin : In (fold q') (map fold (slash_prefixes g))).
+          { rewrite <- F_sp, <- Eg, F_sp. apply in_map. exact Hq'. }
+          apply in_map_iff in Hin as (q0 & Eq & Hq0).
+          destruct (prefix_found n g q0 Hn Hg Hq0) as (a & Ha & Fa & Ea & Va).
+          rewrite <- Eq.
+          rewrite (wentry_nonvalue (fold q0) a Ha); [discriminate| |exact (lookup_form a q0 q0 Ha Fa eq_refl)].
+          intro Hx. destruct (list_eq_dec N.eq_dec q0 g) as [Z|Z]; [rewrite (Ea Z); exact (Vn Hx) | exact (Va Z)]. }
+      unfold find_tag_subfunction. rewrite W. unfold post, validate_remaining_terms, remaining_terms. rewrite FI.
+      replace (skipn (length g' + 1) (g' ++ ch_slash :: r)) with r.
+      2:{ change (g' ++ ch_slash :: r) with (g' ++ [ch_slash] ++ r).
+          rewrite app_assoc. symmetry. apply skipn_app_len. rewrite app_length. reflexivity. }
+      change (forallb (fun name => match lookup name L with Some _ => false | None => true end)
+                      (map fold (split_slash r))) with (ext_terms_free foldc T r).
+      destruct (takes_value_child foldc T (ent n)) as [v|] eqn:V; cbn [negb andb].
+      - rewrite skipn_app_exact, V. reflexivity.
+      - destruct (ext_terms_free foldc T r); cbn [negb]; [|reflexivity].
+        rewrite skipn_app_exact, V. reflexivity.
+    Qed.
+
+    (* ---------------------------------------------------------------- re-identifying the canonical forms *)
+
+    Lemma colon_free_ssuffix n a : In n S -> ssuffix a n -> ~ In ch_colon a.
+    Proof.
+      intros Hn Hs Hin. destruct (name_ok_parts n (wf_names _ _ wf n Hn)) as (_ & _ & Hc). apply Hc.
+      apply ssuffix_iff in Hs as [Hs|[pre Hs]]; subst; [exact Hin|].
+      apply in_or_app. right. right. exact Hin.
+    Qed.
+
+    Lemma ssuffix_app_r g m b : ssuffix g m -> ssuffix (g ++ ch_slash :: b) (m ++ ch_slash :: b).
+    Proof.
+      intro H. apply ssuffix_iff in H as [H|[pre H]]; subst; [left; reflexivity|].
+      rewrite <- app_assoc. apply ssuffix_app_slash.
+    Qed.
+
+    Lemma reresolve clean ns e ext :
+      (fix_hash fx = false -> ~ has_hash_mid clean) ->
+      find_tag_entry_ foldc fx T (ns ++ clean) ns = Found e ext ->
+      (ext = [] \/ exists r, ext = ch_slash :: r) /\ ~ In ch_colon (e_short e) /\ ~ In ch_colon (e_long e) /\
+      find_tag_entry_ foldc fx T (ns ++ e_short e ++ ext) ns = Found e ext /\
+      find_tag_entry_ foldc fx T (ns ++ e_long e ++ ext) ns = Found e ext.
+    Proof.
+      intros NH H0. pose proof H0 as H. unfold find_tag_entry_ in H. cbv zeta in H. rewrite skipn_app_exact in H.
+      destruct (lookup (fold clean) L) as [e0|] eqn:D.
+      - (* direct hit *)
+        destruct (lookup_inv _ _ D) as (n & f & Hn & Ee & Hf & Ef). subst e0.
+        assert (Hx : ext = if is_value n then s_slash_hash else []).
+        { rewrite <- Ef in H. inversion H as [[H1 H2]]. apply (direct_ext n f Hn Hf). }
+        assert (He : e = ent n) by (inversion H; reflexivity).
+        subst e. clear H.
+        destruct (is_value n) eqn:V.
+        + destruct (wf_value foldc S wf n Hn V) as (m & En & Hm & Vm). subst n ext.
+          destruct (ent_value m) as [EL ES]. rewrite EL, ES.
+          assert (F1 : is_form (last_comp m ++ s_slash_hash) (m ++ s_slash_hash)).
+          { split; [apply (ssuffix_app_r _ _ s_hash), last_comp_ssuffix|].
+            intro Z. apply (f_equal (@length N)) in Z. rewrite app_length in Z. cbn in Z. lia. }
+          assert (F2 : is_form (m ++ s_slash_hash) (m ++ s_slash_hash)) by (apply self_form, (wf_nothash _ _ wf _ Hn)).
+          split; [right; exists s_hash; reflexivity|].
+          split; [apply (colon_free_ssuffix m _ Hm), last_comp_ssuffix|].
+          split; [apply (colon_free_ssuffix m _ Hm); left; reflexivity|].
+          split.
+          * rewrite (suffix_resolves_ _ _ _ ns Hn F1 eq_refl), V. reflexivity.
+          * rewrite (suffix_resolves_ _ _ _ ns Hn F2 eq_refl), V. reflexivity.
+        + subst ext. destruct (ent_nonvalue n V) as [EL ES]. rewrite EL, ES, !app_nil_r.
+          split; [left; reflexivity|].
+          split; [apply (colon_free_ssuffix n _ Hn), last_comp_ssuffix|].
+          split; [apply (colon_free_ssuffix n _ Hn); left; reflexivity|].
+          split.
+          * rewrite (suffix_resolves_ _ _ _ ns Hn (last_comp_form n V) eq_refl), V. reflexivity.
+          * rewrite (suffix_resolves_ _ _ _ ns Hn (self_form n (wf_nothash _ _ wf n Hn)) eq_refl), V. reflexivity.
+      - (* walk *)
+        destruct (find_tag_subfunction foldc fx T clean) as [err|[e0 idx]] eqn:F; [discriminate|].
+        clear H. unfold find_tag_subfunction in F.
+        destruct (walk fx T (walk_keys foldc fx clean) None) as [[[e1 idx1]|] missed] eqn:W; [|discriminate].
+        unfold walk_keys in W. rewrite FI in W.
+        set (f := fun q : str => (fold q, length q)) in W.
+        assert (Hne : map f (slash_prefixes clean) <> []).
+        { intro Z. apply map_eq_nil in Z. exact (sp_nonempty _ Z). }
+        assert (Hlast : wentry (fst (last (map f (slash_prefixes clean)) ([], 0))) = None).
+        { destruct (sp_snoc clean) as [l El]. rewrite El, map_app. cbn [map]. rewrite last_last.
+          apply wentry_none. exact D. }
+        destruct (walk_inv _ _ _ _ _ W Hne Hlast)
+          as [[C _]|(ps1 & p & p' & ps2 & Eps & Lq & Ei & Lq')]; [discriminate|].
+        apply map_eq_app in Eps as (l1 & l2 & Esp & _ & M2).
+        apply map_eq_cons in M2 as (q & l3 & E2 & Ep & M3). subst l2.
+        apply map_eq_cons in M3 as (q' & l4 & E3 & Ep' & _). subst l3 p p'.
+        destruct (sp_split _ _ _ _ Esp) as (rest & Ec & Emap); [discriminate|].
+        destruct (slash_prefixes rest) as [|x1 xs] eqn:Ex; [discriminate|].
+        cbn [map] in Emap. assert (Eq' : q' = q ++ ch_slash :: x1) by congruence. subst q'.
+        unfold f in Lq, Lq'. cbn [fst] in Lq, Lq'.
+        destruct (wentry_some_inv _ _ Lq) as [Lq0 Hnv].
+        destruct (lookup_inv _ _ Lq0) as (n & f0 & Hn & Ee & Hf & Ef). subst e1 clean.
+        assert (Lwhole : lookup (fold f0 ++ ch_slash :: fold rest) L = None).
+        { rewrite Ef, <- F_app_slash. exact D. }
+        assert (Lnext : wentry (fold f0 ++ ch_slash :: fold (hd [] (slash_prefixes rest))) = None).
+        { rewrite Ex. cbn [hd]. rewrite Ef, <- F_app_slash. exact Lq'. }
+        assert (V : is_value n = false).
+        { destruct (fix_hash fx) eqn:FH.
+          - rewrite <- (ends_slash_hash_name n Hn). rewrite ent_name in Hnv. exact (Hnv eq_refl).
+          - destruct (is_value n) eqn:V; [|reflexivity]. exfalso. apply (NH eq_refl).
+            destruct (wf_value foldc S wf n Hn V) as (m & En & _). subst n.
+            destruct Hf as [Hs Hne']. apply ssuffix_value in Hs as [Hs|(g & Eg & _)]; [contradiction|]. subst f0.
+            change (g ++ s_slash_hash) with (g ++ ch_slash :: s_hash) in Ef. rewrite F_app_slash in Ef.
+            symmetry in Ef. apply F_eq_app_slash in Ef as (qa & qb & Eq & _ & E2).
+            rewrite F_s_hash in E2. apply F_eq_hash in E2. subst qb q. exists qa, rest.
+            rewrite <- app_assoc. reflexivity. }
+        rewrite (resolve_ext n f0 q rest ns Hn Hf (fun _ => V) (eq_sym Ef) Lwhole Lnext) in H0.
+        assert (Hres : e_long e = n /\ e_short e = last_comp n /\ ext = ch_slash :: rest).
+        { unfold post in H0. destruct (takes_value_child foldc T (ent n)) as [v|] eqn:TV.
+          - inversion H0; subst. destruct (value_child_shape n _ Hn V TV) as (_ & A & B). auto.
+          - destruct (ext_terms_free foldc T rest); [|discriminate].
+            inversion H0; subst. destruct (ent_nonvalue n V). auto. }
+        destruct Hres as (EL & ES & Ex'). rewrite EL, ES. subst ext.
+        split; [right; eexists; reflexivity|].
         split; [apply (colon_free_ssuffix n _ Hn), last_comp_ssuffix|].
         split; [apply (colon_free_ssuffix n _ Hn); left; reflexivity|].
+        pose proof (last_comp_form n V) as Fs. pose proof (self_form n (wf_nothash _ _ wf n Hn)) as Fl.
         split.
-        * rewrite (suffix_resolves_ _ _ _ ns Hn (last_comp_form n V) eq_refl), V. reflexivity.
-        * rewrite (suffix_resolves_ _ _ _ ns Hn (self_form n (wf_nothash _ _ wf n Hn)) eq_refl), V. reflexivity.
-    - (* walk *)
-      destruct (find_tag_subfunction foldc T (fold clean)) as [err|[e0 idx]] eqn:F; [discriminate|].
-      clear H. unfold find_tag_subfunction in F.
-      destruct (walk T (slash_prefixes (fold clean)) None) as [[[e1 idx1]|] missed] eqn:W; [|discriminate].
-      assert (Hlast : lookup (last (slash_prefixes (fold clean)) []) L = None).
-      { destruct (sp_snoc (fold clean)) as [l El]. rewrite El, last_last. exact D. }
-      destruct (walk_inv _ _ _ _ _ W (sp_nonempty _) Hlast)
-        as [[C _]|(ps1 & q & q' & ps2 & Eps & Lq & Ei & Lq')]; [discriminate|].
-      destruct (sp_split _ _ _ _ Eps) as (rest & Ec & Emap); [discriminate|].
-      destruct (slash_prefixes rest) as [|x1 xs] eqn:Ex; [discriminate|].
-      cbn [map] in Emap. assert (Eq' : q' = q ++ ch_slash :: x1) by congruence. subst q'.
-      destruct (lookup_inv _ _ Lq) as (n & f & Hn & Ee & Hf & Ef). subst e1 q.
-      apply (fold_eq_app foldc) in Ec as (c1 & c2 & Ecl & Ec1 & Ec2).
-      apply (fold_eq_cons_slash foldc fold_slash) in Ec2 as (r & Ec2 & Er). subst c2 clean rest.
-      assert (Lwhole : lookup (fold f ++ ch_slash :: fold r) L = None).
-      { rewrite <- Ec1, <- fold_app_slash. exact D. }
-      assert (Lnext : lookup (fold f ++ ch_slash :: hd [] (slash_prefixes (fold r))) L = None).
-      { rewrite Ex. exact Lq'. }
-      rewrite (resolve_ext n f c1 r ns Hn Hf Ec1 Lwhole Lnext) in H0.
-      assert (V : is_value n = false).
-      { destruct (is_value n) eqn:V; [|reflexivity]. exfalso. apply NH.
-        destruct (wf_value foldc S wf n Hn V) as (m & En & _). subst n.
-        destruct Hf as [Hs Hne]. apply ssuffix_value in Hs as [Hs|(g & Eg & _)]; [contradiction|]. subst f.
-        rewrite (fold_app foldc), (fold_s_slash_hash foldc fold_slash fold_hash) in Ec1.
-        apply (fold_eq_app foldc) in Ec1 as (c1a & c1b & E1 & _ & E2).
-        apply fold_eq_slash_hash in E2. subst c1b c1. exists c1a, r. rewrite <- app_assoc. reflexivity. }
-      assert (Hres : e_long e = n /\ e_short e = last_comp n /\ ext = ch_slash :: r).
-      { unfold post in H0. destruct (takes_value_child foldc T (ent n)) as [v|] eqn:TV.
-        - inversion H0; subst. destruct (value_child_shape n _ Hn V TV) as (_ & A & B). auto.
-        - destruct (forallb _ (split_slash (fold r))); [|discriminate].
-          inversion H0; subst. destruct (ent_nonvalue n V). auto. }
-      destruct Hres as (EL & ES & Ex'). rewrite EL, ES. subst ext.
-      split; [right; eexists; reflexivity|].
-      split; [apply (colon_free_ssuffix n _ Hn), last_comp_ssuffix|].
-      split; [apply (colon_free_ssuffix n _ Hn); left; reflexivity|].
-      pose proof (last_comp_form n V) as Fs. pose proof (self_form n (wf_nothash _ _ wf n Hn)) as Fl.
-      split.
-      + rewrite (resolve_ext n (last_comp n) (last_comp n) r ns Hn Fs eq_refl); [exact H0| |].
-        * rewrite (form_ext_lookup_eq n f (last_comp n) _ Hn Hf Fs). exact Lwhole.
-        * rewrite (form_ext_lookup_eq n f (last_comp n) _ Hn Hf Fs). exact Lnext.
-      + rewrite (resolve_ext n n n r ns Hn Fl eq_refl); [exact H0| |].
-        * rewrite (form_ext_lookup_eq n f n _ Hn Hf Fl). exact Lwhole.
-        * rewrite (form_ext_lookup_eq n f n _ Hn Hf Fl). exact Lnext.
-  Qed.
+        + rewrite (resolve_ext n (last_comp n) (last_comp n) rest ns Hn Fs (fun _ => V) eq_refl); [exact H0| |].
+          * rewrite (form_ext_lookup_eq n f0 (last_comp n) _ Hn Hf Fs). exact Lwhole.
+          * rewrite (wentry_congr _ _ (form_ext_lookup_eq n f0 (last_comp n) _ Hn Hf Fs)). exact Lnext.
+        + rewrite (resolve_ext n n n rest ns Hn Fl (fun _ => V) eq_refl); [exact H0| |].
+          * rewrite (form_ext_lookup_eq n f0 n _ Hn Hf Fl). exact Lwhole.
+          * rewrite (wentry_congr _ _ (form_ext_lookup_eq n f0 n _ Hn Hf Fl)). exact Lnext.
+    Qed.
 
-  Lemma hedtag_init_found sns t' ns e ext :
-    get_schema_namespace t' = ns -> str_eqb ns sns = true ->
-    find_tag_entry_ foldc T t' ns = Found e ext ->
-    hedtag_init foldc T sns t' = mkHedTag t' ns (Some e) ext.
-  Proof.
-    intros H1 H2 H3. unfold hedtag_init, find_tag_entry. rewrite H1, H2, H3. reflexivity.
-  Qed.
+    Lemma hedtag_init_found sns t' ns e ext :
+      get_schema_namespace t' = ns -> str_eqb ns sns = true ->
+      find_tag_entry_ foldc fx T t' ns = Found e ext ->
+      hedtag_init foldc fx T sns t' = mkHedTag t' ns (Some e) ext.
+    Proof.
+      intros H1 H2 H3. unfold hedtag_init, find_tag_entry. rewrite H1, H2, H3. reflexivity.
+    Qed.
 
-  Lemma hedtag_cases sns t :
-    (exists e ext, str_eqb (get_schema_namespace t) sns = true /\
-        find_tag_entry_ foldc T t (get_schema_namespace t) = Found e ext /\
-        hedtag_init foldc T sns t = mkHedTag t (get_schema_namespace t) (Some e) ext) \/
-    hedtag_init foldc T sns t = mkHedTag t (get_schema_namespace t) None [].
-  Proof.
-    unfold hedtag_init, find_tag_entry.
-    destruct (str_eqb (get_schema_namespace t) sns) eqn:NS; [|right; reflexivity].
-    destruct (find_tag_entry_ foldc T t (get_schema_namespace t)) as [e ext|err] eqn:F; [|right; reflexivity].
-    left. exists e, ext. auto.
-  Qed.
+    Lemma hedtag_cases sns t :
+      (exists e ext, str_eqb (get_schema_namespace t) sns = true /\
+          find_tag_entry_ foldc fx T t (get_schema_namespace t) = Found e ext /\
+          hedtag_init foldc fx T sns t = mkHedTag t (get_schema_namespace t) (Some e) ext) \/
+      hedtag_init foldc fx T sns t = mkHedTag t (get_schema_namespace t) None [].
+    Proof.
+      unfold hedtag_init, find_tag_entry.
+      destruct (str_eqb (get_schema_namespace t) sns) eqn:NS; [|right; reflexivity].
+      destruct (find_tag_entry_ foldc fx T t (get_schema_namespace t)) as [e ext|err] eqn:F; [|right; reflexivity].
+      left. exists e, ext. auto.
+    Qed.
 
-  Lemma long_short_inverse_ sns t :
-    ~ has_hash_mid t ->
-    let h := hedtag_init foldc T sns t in
-    let hs := hedtag_init foldc T sns (short_tag h) in
-    let hl := hedtag_init foldc T sns (long_tag h) in
-    long_tag hs = long_tag h /\ short_tag hl = short_tag h /\
-    short_tag hs = short_tag h /\ long_tag hl = long_tag h /\
-    ht_entry hs = ht_entry h /\ ht_entry hl = ht_entry h /\
-    ht_ext hs = ht_ext h /\ ht_ext hl = ht_ext h.
-  Proof.
-    intro NH. cbv zeta.
-    destruct (hedtag_cases sns t) as [(e & ext & NS & F & Hh)|Hh].
-    - rewrite Hh.
-      change (short_tag (mkHedTag t (get_schema_namespace t) (Some e) ext))
-        with (get_schema_namespace t ++ e_short e ++ ext).
-      change (long_tag (mkHedTag t (get_schema_namespace t) (Some e) ext))
-        with (get_schema_namespace t ++ e_long e ++ ext).
-      cbn [ht_entry ht_ns ht_ext ht_text].
-      destruct (ns_prefix t) as [clean Et].
-      remember (get_schema_namespace t) as ns eqn:Ens.
-      assert (NHc : ~ has_hash_mid clean).
-      { intros (a & b & E). apply NH. exists (ns ++ a), b. rewrite Et, E, <- app_assoc. reflexivity. }
-      rewrite Et in F. destruct (reresolve clean ns e ext NHc F) as (Hx & C1 & C2 & R1 & R2).
-      assert (N1 : get_schema_namespace (ns ++ e_short e ++ ext) = ns) by (rewrite Ens; apply ns_stable; assumption).
-      assert (N2 : get_schema_namespace (ns ++ e_long e ++ ext) = ns) by (rewrite Ens; apply ns_stable; assumption).
-      rewrite (hedtag_init_found sns _ ns e ext N1 NS R1), (hedtag_init_found sns _ ns e ext N2 NS R2).
-      unfold short_tag, long_tag. cbn [ht_entry ht_ns ht_ext ht_text]. repeat split; reflexivity.
-    - rewrite Hh.
-      change (short_tag (mkHedTag t (get_schema_namespace t) None [])) with t.
-      change (long_tag (mkHedTag t (get_schema_namespace t) None [])) with t.
-      rewrite Hh. repeat split; reflexivity.
-  Qed.
+    Lemma long_short_inverse_ sns t :
+      (fix_hash fx = false -> ~ has_hash_mid t) ->
+      let h := hedtag_init foldc fx T sns t in
+      let hs := hedtag_init foldc fx T sns (short_tag h) in
+      let hl := hedtag_init foldc fx T sns (long_tag h) in
+      long_tag hs = long_tag h /\ short_tag hl = short_tag h /\
+      short_tag hs = short_tag h /\ long_tag hl = long_tag h /\
+      ht_entry hs = ht_entry h /\ ht_entry hl = ht_entry h /\
+      ht_ext hs = ht_ext h /\ ht_ext hl = ht_ext h.
+    Proof.
+      intro NH. cbv zeta.
+      destruct (hedtag_cases sns t) as [(e & ext & NS & F & Hh)|Hh].
+      - rewrite Hh.
+        change (short_tag (mkHedTag t (get_schema_namespace t) (Some e) ext))
+          with (get_schema_namespace t ++ e_short e ++ ext).
+        change (long_tag (mkHedTag t (get_schema_namespace t) (Some e) ext))
+          with (get_schema_namespace t ++ e_long e ++ ext).
+        cbn [ht_entry ht_ns ht_ext ht_text].
+        destruct (ns_prefix t) as [clean Et].
+        remember (get_schema_namespace t) as ns eqn:Ens.
+        assert (NHc : fix_hash fx = false -> ~ has_hash_mid clean).
+        { intros FH (a & b & E). apply (NH FH). exists (ns ++ a), b. rewrite Et, E, <- app_assoc. reflexivity. }
+        rewrite Et in F. destruct (reresolve clean ns e ext NHc F) as (Hx & C1 & C2 & R1 & R2).
+        assert (N1 : get_schema_namespace (ns ++ e_short e ++ ext) = ns) by (rewrite Ens; apply ns_stable; assumption).
+        assert (N2 : get_schema_namespace (ns ++ e_long e ++ ext) = ns) by (rewrite Ens; apply ns_stable; assumption).
+        rewrite (hedtag_init_found sns _ ns e ext N1 NS R1), (hedtag_init_found sns _ ns e ext N2 NS R2).
+        unfold short_tag, long_tag. cbn [ht_entry ht_ns ht_ext ht_text]. repeat split; reflexivity.
+      - rewrite Hh.
+        change (short_tag (mkHedTag t (get_schema_namespace t) None [])) with t.
+        change (long_tag (mkHedTag t (get_schema_namespace t) None [])) with t.
+        rewrite Hh. repeat split; reflexivity.
+    Qed.
+  End WithFixes.
 End WithFold.
 
-(* ------------------------------------------------------------------ statements over the model's own notions *)
+(* ------------------------------------------------------------------ foldings given by a table *)
 
 Lemma ascii_lower_keeps c d : (d < 65)%N -> N.eqb (ascii_lower c) d = N.eqb c d.
 Proof.
@@ -451,21 +505,125 @@ Proof.
   rewrite (proj2 (N.eqb_neq _ _)) by lia. rewrite (proj2 (N.eqb_neq _ _)) by lia. reflexivity.
 Qed.
 
-Lemma ascii_lower_slash c : N.eqb (ascii_lower c) ch_slash = N.eqb c ch_slash.
-Proof. apply ascii_lower_keeps. reflexivity. Qed.
+Lemma assoc_n_in c tbl s : assoc_n c tbl = Some s -> In (c, s) tbl.
+Proof.
+  induction tbl as [|[k v] r IH]; cbn [assoc_n]; [discriminate|].
+  destruct (N.eqb c k) eqn:E.
+  - intro H. inversion H; subst. apply N.eqb_eq in E. subst. left. reflexivity.
+  - intro H. right. apply IH. exact H.
+Qed.
 
-Lemma ascii_lower_hash c : N.eqb (ascii_lower c) ch_hash = N.eqb c ch_hash.
-Proof. apply ascii_lower_keeps. reflexivity. Qed.
+Section TableFold.
+  Variable tbl : list (N * str).
+  Hypothesis OK : table_ok tbl = true.
+
+  Lemma table_entry c s : assoc_n c tbl = Some s ->
+    s <> [] /\ ~ In ch_slash s /\ ~ In ch_hash s.
+  Proof.
+    intro A. apply assoc_n_in in A. unfold table_ok in OK. rewrite forallb_forall in OK.
+    specialize (OK _ A). cbn [snd] in OK. apply andb_true_iff in OK as [OK H3].
+    apply andb_true_iff in OK as [H1 H2]. repeat split.
+    - destruct s; [discriminate | discriminate].
+    - intro Hin. apply negb_true_iff in H2.
+      assert (existsb (N.eqb ch_slash) s = true) by (apply existsb_exists; exists ch_slash; split; [exact Hin | reflexivity]).
+      congruence.
+    - intro Hin. apply negb_true_iff in H3.
+      assert (existsb (N.eqb ch_hash) s = true) by (apply existsb_exists; exists ch_hash; split; [exact Hin | reflexivity]).
+      congruence.
+  Qed.
+
+  Lemma table_fold_slash :
+    table_fold tbl ch_slash = [ch_slash] /\ forall c, In ch_slash (table_fold tbl c) -> c = ch_slash.
+  Proof.
+    split; [reflexivity|]. intros c. unfold table_fold. destruct (N.ltb c 128) eqn:Lt.
+    - intros [H|[]]. apply N.eqb_eq. rewrite <- (ascii_lower_keeps c ch_slash) by reflexivity.
+      apply N.eqb_eq. exact H.
+    - destruct (assoc_n c tbl) as [s|] eqn:A.
+      + intro H. exfalso. exact (proj1 (proj2 (table_entry c s A)) H).
+      + intros [H|[]]. subst c. discriminate.
+  Qed.
+
+  Lemma table_fold_hash :
+    table_fold tbl ch_hash = [ch_hash] /\ (forall c, table_fold tbl c = [ch_hash] -> c = ch_hash) /\
+    forall c, table_fold tbl c <> [].
+  Proof.
+    split; [reflexivity|]. split.
+    - intros c. unfold table_fold. destruct (N.ltb c 128) eqn:Lt.
+      + intro H. apply N.eqb_eq. rewrite <- (ascii_lower_keeps c ch_hash) by reflexivity.
+        apply N.eqb_eq. congruence.
+      + destruct (assoc_n c tbl) as [s|] eqn:A.
+        * intro H. exfalso. apply (proj2 (proj2 (table_entry c s A))). rewrite H. left. reflexivity.
+        * intro H. assert (c = ch_hash) by congruence. subst c. discriminate.
+    - intros c. unfold table_fold. destruct (N.ltb c 128); [discriminate|].
+      destruct (assoc_n c tbl) as [s|] eqn:A; [exact (proj1 (table_entry c s A)) | discriminate].
+  Qed.
+End TableFold.
+
+(* ------------------------------------------------------------------ the index repair is invisible for
+   foldings that map every code point to one code point *)
+
+Section Len1.
+  Variable foldc : N -> str.
+  Hypothesis fold_slash : foldc ch_slash = [ch_slash] /\ forall c, In ch_slash (foldc c) -> c = ch_slash.
+  Hypothesis len1 : forall c, length (foldc c) = 1.
+  Notation fold := (Schema.fold foldc).
+
+  Lemma fold_length1 s : length (fold s) = length s.
+  Proof.
+    induction s as [|c s IH]; [reflexivity|]. rewrite (fold_cons foldc), app_length, len1, IH. reflexivity.
+  Qed.
+
+  Lemma skipn_fold1 k : forall s, skipn k (fold s) = fold (skipn k s).
+  Proof.
+    induction k as [|k IH]; intro s; [reflexivity|]. destruct s as [|c s]; [reflexivity|].
+    rewrite (fold_cons foldc). pose proof (len1 c) as H. destruct (foldc c) as [|x [|y w]]; try discriminate.
+    cbn [app skipn]. apply IH.
+  Qed.
+
+  Lemma walk_keys_same h clean :
+    walk_keys foldc (mkFixes false h) clean = walk_keys foldc (mkFixes true h) clean.
+  Proof.
+    unfold walk_keys. cbn [fix_index]. rewrite (sp_fold foldc fold_slash), map_map.
+    apply map_ext. intro q. rewrite fold_length1. reflexivity.
+  Qed.
+
+  Lemma remaining_terms_same h clean idx :
+    remaining_terms foldc (mkFixes false h) clean idx = remaining_terms foldc (mkFixes true h) clean idx.
+  Proof.
+    unfold remaining_terms. cbn [fix_index]. rewrite skipn_fold1. apply (split_fold foldc fold_slash).
+  Qed.
+
+  Lemma unrepaired_index_same h T tag ns :
+    find_tag_entry_ foldc (mkFixes false h) T tag ns = find_tag_entry_ foldc (mkFixes true h) T tag ns.
+  Proof.
+    unfold find_tag_entry_, find_tag_subfunction, validate_remaining_terms.
+    rewrite walk_keys_same.
+    assert (R : forall c i, remaining_terms foldc (mkFixes false h) c i = remaining_terms foldc (mkFixes true h) c i)
+      by (intros; apply remaining_terms_same).
+    destruct (lookup (fold (skipn (length ns) tag)) (long_form_tags T)); [reflexivity|].
+    change (walk (mkFixes false h) T) with (walk (mkFixes true h) T).
+    destruct (walk (mkFixes true h) T (walk_keys foldc (mkFixes true h) (skipn (length ns) tag)) None) as [[[e idx]|] m];
+      [|reflexivity].
+    rewrite R. reflexivity.
+  Qed.
+
+  Lemma unrepaired_index_same_hedtag h T sns t :
+    hedtag_init foldc (mkFixes false h) T sns t = hedtag_init foldc (mkFixes true h) T sns t.
+  Proof. unfold hedtag_init, find_tag_entry. rewrite unrepaired_index_same. reflexivity. Qed.
+End Len1.
+
+(* ------------------------------------------------------------------ statements over the model's own notions *)
 
 Section Top.
-  Variable foldc : N -> N.
-  Hypothesis fold_slash : forall c, N.eqb (foldc c) ch_slash = N.eqb c ch_slash.
-  Hypothesis fold_hash : forall c, N.eqb (foldc c) ch_hash = N.eqb c ch_hash.
+  Variable foldc : N -> str.
+  Hypothesis fold_slash : foldc ch_slash = [ch_slash] /\ forall c, In ch_slash (foldc c) -> c = ch_slash.
+  Hypothesis fold_hash : foldc ch_hash = [ch_hash] /\ (forall c, foldc c = [ch_hash] -> c = ch_hash) /\
+                         forall c, foldc c <> [].
   Notation fold := (Schema.fold foldc).
   Variable S : list str.
   Hypothesis HWF : WFschema foldc S = true.
 
-  Let wf : WF foldc S := WFschema_WF foldc S HWF.
+  Let wf : WF foldc S := WFschema_WF foldc fold_slash fold_hash S HWF.
 
   (* loading a well-formed schema never raises and records no duplicate *)
   Lemma table_total : exists T, build_table foldc S = Ok T /\ duplicate_names T = [].
@@ -510,26 +668,30 @@ Section Top.
       apply (proj2 table_inv); assumption.
   Qed.
 
+  Variable fx : fixes.
+
   Lemma suffix_resolves n k forms f e p ns :
     In n S -> get_tag_forms n = Ok (k, forms) -> In f forms -> create_tag_entry n = Ok e ->
     fold p = fold f ->
-    find_tag_entry foldc T ns (ns ++ p) ns = Found e (if is_value n then s_slash_hash else []).
+    find_tag_entry foldc fx T ns (ns ++ p) ns = Found e (if is_value n then s_slash_hash else []).
   Proof.
     intros Hn G Hf Ce E. destruct (model_form n k forms f e Hn G Hf Ce) as [F Ee]. subst e.
     unfold find_tag_entry. rewrite str_eqb_refl.
-    apply (suffix_resolves_ foldc fold_slash fold_hash S wf T table_inv n f); assumption.
+    apply (suffix_resolves_ foldc fold_slash fold_hash S wf T table_inv fx n f); assumption.
   Qed.
 
   Lemma hedtag_suffix n k forms f e p sns :
     In n S -> get_tag_forms n = Ok (k, forms) -> In f forms -> create_tag_entry n = Ok e ->
     fold p = fold f -> get_schema_namespace (sns ++ p) = sns ->
-    hedtag_init foldc T sns (sns ++ p)
+    hedtag_init foldc fx T sns (sns ++ p)
     = mkHedTag (sns ++ p) sns (Some e) (if is_value n then s_slash_hash else []).
   Proof.
     intros Hn G Hf Ce E NS. destruct (model_form n k forms f e Hn G Hf Ce) as [F Ee]. subst e.
     apply hedtag_init_found; [exact NS | apply str_eqb_refl|].
-    apply (suffix_resolves_ foldc fold_slash fold_hash S wf T table_inv n f); assumption.
+    apply (suffix_resolves_ foldc fold_slash fold_hash S wf T table_inv fx n f); assumption.
   Qed.
+
+  Hypothesis FI : fix_index fx = true.
 
   Lemma remainder_verbatim n k forms f e p r ns :
     In n S -> is_value n = false ->
@@ -537,7 +699,7 @@ Section Top.
     fold p = fold f ->
     no_longer_form foldc T p r = true ->
     (takes_value_child foldc T e <> None \/ ext_terms_free foldc T r = true) ->
-    find_tag_entry foldc T ns (ns ++ p ++ ch_slash :: r) ns
+    find_tag_entry foldc fx T ns (ns ++ p ++ ch_slash :: r) ns
     = Found (match takes_value_child foldc T e with Some v => v | None => e end) (ch_slash :: r)
     /\ (forall v, takes_value_child foldc T e = Some v ->
           create_tag_entry (n ++ s_slash_hash) = Ok v /\ In (n ++ s_slash_hash) S /\
@@ -547,45 +709,40 @@ Section Top.
     split.
     - unfold find_tag_entry. rewrite str_eqb_refl.
       unfold no_longer_form in NL. rewrite forallb_forall in NL.
+      assert (NLq : forall q, In q (slash_prefixes (fold r)) ->
+                lookup (fold f ++ ch_slash :: q) (long_form_tags T) = None).
+      { intros q Hq. specialize (NL q Hq). rewrite E in NL.
+        destruct (lookup (fold f ++ ch_slash :: q) (long_form_tags T)); [discriminate | reflexivity]. }
       assert (L1 : lookup (fold f ++ ch_slash :: fold r) (long_form_tags T) = None).
-      { specialize (NL (fold r)). rewrite E in NL.
-        destruct (lookup (fold f ++ ch_slash :: fold r) (long_form_tags T)); [|reflexivity].
-        assert (false = true); [|discriminate]. apply NL. apply in_sp. left. reflexivity. }
-      assert (L2 : lookup (fold f ++ ch_slash :: hd [] (slash_prefixes (fold r))) (long_form_tags T) = None).
-      { specialize (NL (hd [] (slash_prefixes (fold r)))). rewrite E in NL.
-        destruct (lookup (fold f ++ ch_slash :: hd [] (slash_prefixes (fold r))) (long_form_tags T)); [|reflexivity].
-        assert (false = true); [|discriminate]. apply NL.
-        destruct (slash_prefixes (fold r)) eqn:X; [exfalso; exact (sp_nonempty _ X) | left; reflexivity]. }
-      rewrite (resolve_ext foldc fold_slash S wf T table_inv n f p r ns Hn F E L1 L2).
+      { apply NLq. apply in_sp. left. reflexivity. }
+      assert (L2 : walk_entry fx T (fold f ++ ch_slash :: fold (hd [] (slash_prefixes r))) = None).
+      { apply wentry_none. apply NLq. rewrite (sp_fold foldc fold_slash).
+        destruct (slash_prefixes r) eqn:X; [exfalso; exact (sp_nonempty _ X) | left; reflexivity]. }
+      rewrite (resolve_ext foldc fold_slash S wf T table_inv fx FI n f p r ns Hn F (fun _ => V) E L1 L2).
       unfold post. destruct (takes_value_child foldc T (ent n)) as [v|] eqn:TV; [reflexivity|].
-      destruct SC as [SC|SC]; [contradiction|]. unfold ext_terms_free in SC. rewrite SC. reflexivity.
+      destruct SC as [SC|SC]; [contradiction|]. rewrite SC. reflexivity.
     - intros v TV.
       destruct (value_child_shape foldc fold_slash fold_hash S wf T table_inv n v Hn V TV) as (Ev & EL & ES).
       destruct (ent_nonvalue n V) as [EL' ES']. rewrite EL, ES, EL', ES'.
       assert (Hin : In (n ++ s_slash_hash) S).
       { unfold takes_value_child, get_entry in TV. rewrite ent_name in TV.
-        destruct (proj1 table_inv _ _ TV) as (n2 & f2 & H2 & E2 & F2 & Ef2).
-        assert (n2 = n ++ s_slash_hash); [|subst; assumption].
-        apply (forms_disjoint foldc fold_slash fold_hash S wf n2 (n ++ s_slash_hash) f2 (n ++ s_slash_hash) H2);
-          [|exact F2| |exact Ef2].
-        - change (n ++ s_slash_hash) with (n ++ ch_slash :: s_hash) in TV.
-          rewrite (fold_app_slash foldc fold_slash) in TV.
-          destruct (deeper_form foldc fold_slash fold_hash S wf T table_inv n n _ v Hn
-                      (self_form n (wf_nothash _ _ wf n Hn)) TV) as (b & Eb & Hb & _).
-          rewrite (fold_s_hash foldc fold_hash) in Eb. apply (fold_eq_hash foldc fold_hash) in Eb. subst b. exact Hb.
-        - apply self_form. intro Z. apply (f_equal (@length N)) in Z. rewrite app_length in Z. cbn in Z. lia. }
+        change (n ++ s_slash_hash) with (n ++ ch_slash :: s_hash) in TV.
+        rewrite (fold_app_slash foldc fold_slash) in TV.
+        destruct (deeper_form foldc fold_slash fold_hash S wf T table_inv n n _ v Hn
+                    (self_form n (wf_nothash _ _ wf n Hn)) TV) as (b & Eb & Hb & _).
+        rewrite (fold_s_hash foldc fold_hash) in Eb. apply (fold_eq_hash foldc fold_hash) in Eb. subst b. exact Hb. }
       repeat split; auto. subst v.
       apply create_tag_entry_ok; [exact (wf_names _ _ wf _ Hin) | exact (wf_nothash _ _ wf _ Hin)].
   Qed.
 
   Lemma long_short_inverse sns t :
-    ~ has_hash_mid t ->
-    let h := hedtag_init foldc T sns t in
-    let hs := hedtag_init foldc T sns (short_tag h) in
-    let hl := hedtag_init foldc T sns (long_tag h) in
+    (fix_hash fx = false -> ~ has_hash_mid t) ->
+    let h := hedtag_init foldc fx T sns t in
+    let hs := hedtag_init foldc fx T sns (short_tag h) in
+    let hl := hedtag_init foldc fx T sns (long_tag h) in
     long_tag hs = long_tag h /\ short_tag hl = short_tag h /\
     short_tag hs = short_tag h /\ long_tag hl = long_tag h /\
     ht_entry hs = ht_entry h /\ ht_entry hl = ht_entry h /\
     ht_ext hs = ht_ext h /\ ht_ext hl = ht_ext h.
-  Proof. exact (long_short_inverse_ foldc fold_slash fold_hash S wf T table_inv sns t). Qed.
+  Proof. exact (long_short_inverse_ foldc fold_slash fold_hash S wf T table_inv fx FI sns t). Qed.
 End Top.
